@@ -56,6 +56,20 @@ CHECKS = {
         'Arguments are plain picklable values; checkpoints are taken at state entries and each restore uses a fresh deserialisation in a fresh event loop.',
         'DESIGN.md section 3 C13',
     ),
+    'C09': (
+        'exploration',
+        'property-based testing against an independent reference interpreter of the outline language (model-based), Hypothesis-generated ASTs plus a bounded-exhaustive small family',
+        'Generated WorkChain classes are compiled from outline ASTs (steps, if_/elif_/else_, while_, return_, return_(code), nested to depth 3/4) with generated predicate truth sequences and step return sequences; the ordered list of every predicate and step call, the final state and result() must equal those of a 60-line recursive interpreter that shares no code with plumpy.',
+        'Bodies are non-empty (implicit precondition). Falling off the outline right after a ToContext-returning step accepts None or that mapping. Call counters live in ctx, predicates and steps are otherwise pure.',
+        'DESIGN.md section 3 C09',
+    ),
+    'C10': (
+        'exploration',
+        'property-based testing: exhaustive enumeration of completion orders / awaitable kinds / registration ways / outcome mixes for small n plus Hypothesis; barrier predicate sampled at the entry of the next outline step',
+        'At the entry of the step after the barrier every awaited future must be done and ctx[key] must equal its result (child: its outputs; later assignment wins); with a failing or killed item the workchain must end EXCEPTED with the first such error (KilledError for a killed child) and the next step must never run; nothing may reach the loop exception handler.',
+        'Completions are injected between two event-loop callbacks on the harness-owned loop; children are real launched processes gated by the harness.',
+        'DESIGN.md section 3 C10',
+    ),
 }
 
 PENDING = {f'C{n:02d}': 'check not built yet in this round (see DESIGN.md section 9 for the build order)' for n in range(1, 21)}
